@@ -27,6 +27,7 @@ import (
 	"github.com/elastos/Elastos.ELA/core/types"
 	ctypes "github.com/elastos/Elastos.ELA/core/types/common"
 	"github.com/elastos/Elastos.ELA/core/types/functions"
+	"github.com/elastos/Elastos.ELA/core/types/outputpayload"
 	"github.com/elastos/Elastos.ELA/core/types/payload"
 	crstate "github.com/elastos/Elastos.ELA/cr/state"
 
@@ -56,6 +57,7 @@ type crInst struct {
 	w       *crkit.World
 	m       map[string]*crM
 	nonce   uint64
+	vrOut   *ctypes.Input // voter vr's current output (nil: the initial one)
 	changed bool
 	trust   bool
 	nv      *counters
@@ -83,7 +85,7 @@ func (in *crInst) Ops() []string {
 	for _, c := range crCands {
 		ops = append(ops, "top:"+c)
 	}
-	ops = append(ops, "vote:v1:a", "vote:v2:c", "unvote:v1")
+	ops = append(ops, "vote:v1:a", "vote:v2:c", "vote12", "unvote:v1")
 	for _, c := range crCands {
 		ops = append(ops, "unreg:"+c)
 	}
@@ -250,6 +252,29 @@ func (in *crInst) Apply(op string) *fail {
 			}
 		}
 		return in.invariants(f[0], "")
+	case "vote12", "vu":
+		// voter vr puts all CR votes on c1 and c2 (the patterns of crkit all include c3 or c4);
+		// "vu:<c>" (seeds only) carries the unregistration of c in the same block
+		k := crkit.K("vr")
+		prev := in.vrOut
+		if prev == nil {
+			prev = crkit.In(common.Hash([]byte("verif-utxo-vr")), 0)
+		}
+		in.nonce++
+		tx := crkit.VoteTx(k, prev, outputpayload.CRC, []crkit.CV{{Candidate: crkit.K("c1").CID.Bytes(), Votes: 30 * crkit.ELA}, {Candidate: crkit.K("c2").CID.Bytes(), Votes: 20 * crkit.ELA}},
+			50*crkit.ELA, uint64(in.w.Height+1)<<16|in.nonce&0xffff)
+		txs := []crkit.Tx{tx}
+		if f[0] == "vu" {
+			txs = append(txs, crkit.UnregisterCR(crkit.K(f[1])))
+		}
+		if !in.offer("cr-"+f[0], txs...) {
+			return nil
+		}
+		in.vrOut = crkit.In(tx.Hash(), 0)
+		if f[0] == "vu" && in.m[f[1]].unregH == 0 {
+			in.m[f[1]].unregH = in.w.Height
+		}
+		return in.invariants("vote", "")
 	case "top":
 		c := f[1]
 		if !in.m[c].registered {
